@@ -16,7 +16,7 @@ theorem engArithVV_iter_safe_ord (st : St) (op : String) (tc : List String) (a b
         (vecFn op a.dt)
       pure ⟨s, none, .fresh c⟩) := by
   unfold engArithVV
-  simp only [hc.ta, hc.tb, hc.ne, hc.sh, hfo_none, hk, hord, itStream_nomask _ _ hma, itStream_nomask _ _ hmb,
+  simp only [hc.ta, hc.tb, hc.ne, hc.sh, hfo_none, prepAliasVV_none, prepAliasT_none, hk, hord, itStream_nomask _ _ hma, itStream_nomask _ _ hmb,
     bind, Except.bind, pure, Except.pure,
     Bool.not_true, Bool.false_eq_true, if_false, Bool.or_false, Bool.and_false, Bool.not_false,
     Bool.and_true, if_true, Bool.true_or, Bool.or_true]
